@@ -411,6 +411,11 @@ class Inotify:
                                     _move_to_path = inotify_event.src_path + _path[len(move_src_path) :]
                                     self._wd_for_path[_move_to_path] = moved_wd
                                     self._path_for_wd[moved_wd] = _move_to_path
+                            if inotify_event.is_directory:
+                                # A sub-directory made just before the rename got no watch when its IN_CREATE
+                                # was read (its path was gone by then): cover whatever the directory holds.
+                                with contextlib.suppress(OSError):
+                                    self._add_dir_watch(inotify_event.src_path, self._event_mask, recursive=True)
                     elif self.is_recursive and inotify_event.is_directory:
                         # A directory that arrived from outside the watched tree (or that was renamed
                         # before its watch could be added) is not covered yet: watch it and what it holds.
